@@ -9,36 +9,126 @@ GEN_FUNCS = ["ray._ray_map", "ray._ray_eliminate", "ray._ray_quad", "ray.ray_pla
 LEVEL_TEXT = ("Theorems over the reals about the ray/primitive functions regenerated from ray.py on every run: _ray_map is the change to the geom frame (distance preserving for rotations); "
               "_ray_quad returns the smallest non-negative root (a>0, det>=MINVAL) or -1; ray_sphere / ray_plane / ray_ellipsoid / ray_box: a returned x>=0 is a point on the surface, it is the nearest "
               "hit, the normal is the unit outward normal, misses return (-1,0); _ray_eliminate is exactly the group/static/exclude/alpha rule; ray_geom dispatches by type. "
-              "Capsule/cylinder/triangle: hit-on-surface only (`_partial`). The nearest-hit reduction over geoms and the BVH path are compared with mujoco.mj_ray on random scenes (sampled).")
-LEVEL_NOTE = "C34_partial: capsule/cylinder nearest-ness, triangle/mesh/hfield/flex rays, the per-world reduction and BVH traversal are sampled only. Trusted: Lean kernel + Mathlib, tier-A translator."
-ASSUMPTIONS = ["oracle mujoco.mj_ray with the same geomgroup / flg_static / bodyexclude"]
+              "Capsule/cylinder/triangle: hit-on-surface only (`_partial`). The nearest-hit reduction over geoms, the eligibility rule as wired into the kernels, and the BVH path are compared with "
+              "mujoco.mj_ray (distance, hit/miss, geom id, normal) on random scenes that contain, in rotation, every kind of geom the rule distinguishes (world-body geoms, jointless bodies and chains "
+              "of them hanging off the world, mocap bodies, jointless children of moving bodies, groups 0..5 and out-of-range groups, alpha-0 geoms, alpha-0 / visible materials) under a full rotation "
+              "of flg_static x geomgroup (none / random / target group off / only target group) x bodyexclude (none / target body / welded body / world / random); rays() with per-ray excluded "
+              "bodies is compared with ray() ray by ray on both paths (sampled).")
+LEVEL_NOTE = ("C34_partial: capsule/cylinder nearest-ness, triangle/mesh/hfield/flex rays, the per-world reduction and BVH traversal are sampled only (one world; primitives only). Rays for which "
+              "MuJoCo's own answer flips under a 2e-5 perturbation (grazing / edge rays) are not judged. Trusted: Lean kernel + Mathlib, tier-A translator.")
+ASSUMPTIONS = ["oracle mujoco.mj_ray with the same geomgroup / flg_static / bodyexclude (geomgroup entries 0/1 or no mask)", "mju_rayGeom as arbiter when two surfaces coincide along a ray"]
+
+
+GT = ["sphere", "capsule", "box", "ellipsoid", "cylinder"]
+ASSET = ('<asset><material name="c34minv" rgba="0.5 0.5 0.5 0"/><material name="c34mvis" rgba="0.5 0.5 0.5 1"/></asset>')
+
+
+def _scene(rng, c):
+  """random forest + (in rotation) every kind of geom the eligibility rule distinguishes:
+  world-body geoms, geoms on jointless bodies hanging off the world (body id != 0, welded to the world), nested ones, mocap bodies,
+  jointless children of moving bodies (NOT static), groups 0..5 and out-of-range groups, alpha-0 geoms, alpha-0 materials,
+  visible material over an alpha-0 geom colour."""
+  import re
+  from harness.gen import models
+  f = models._f
+  wb, sp = models.random_tree(rng, nbody=int(rng.integers(1, 5)), joint_types=("free", "hinge"), geom_types=GT, spread=0.5, static_geoms=int(rng.integers(0, 3)), sites=False)
+  if c % 2 == 0:   # jointless child of a moving body: weld id != 0, stays eligible when flg_static is False
+    k = wb.find("</body>")
+    wb = wb[:k] + f'<body name="c34jl" pos="{f(rng.uniform(-0.3, 0.3, size=3))}">' + models._geom(rng, "c34gjl", GT) + "</body>\n" + wb[k:]
+
+  def place():
+    p = rng.uniform(-0.8, 0.8, size=3)
+    p[2] = rng.uniform(0.3, 1.5)
+    q = rng.normal(size=4)
+    return f'pos="{f(p)}" quat="{f(q / np.linalg.norm(q))}"'
+
+  world = []
+  kind = c % 3
+  if kind in (0, 2):   # chain of jointless bodies off the world
+    world.append(f'    <body name="c34w0" {place()}>{models._geom(rng, "c34gw0", GT)}'
+                 f'<body name="c34w1" pos="{f(rng.uniform(-0.3, 0.3, size=3))}">{models._geom(rng, "c34gw1", GT)}</body></body>')
+  if kind == 1:        # single jointless body off the world
+    world.append(f'    <body name="c34w0" {place()}>{models._geom(rng, "c34gw0", GT)}</body>')
+  if kind in (1, 2):   # mocap body (MuJoCo gives it its own weld id: not static)
+    world.append(f'    <body name="c34mc" mocap="true" {place()}>{models._geom(rng, "c34gmc", GT)}</body>')
+  xml = models.wrap(wb + "\n" + "\n".join(world), floor=rng.random() < 0.7, extra=ASSET,
+                    compiler='<compiler angle="radian" inertiagrouprange="-3 8"/>')   # out-of-range groups still give mass
+  xml = xml.replace("<worldbody>", '<worldbody><camera name="c34cam" pos="0 -3 1" xyaxes="1 0 0 0 0 1"/>', 1)
+  cnt = [int(rng.integers(0, 8))]
+
+  def deco(mo):
+    cnt[0] += 1
+    grp = int(rng.integers(0, 6)) if rng.random() < 0.85 else int(rng.choice([7, -2]))
+    s = mo.group(0) + f' group="{grp}"'
+    if cnt[0] % 4 == 0:
+      s += [' rgba="0.3 0.3 0.3 0"', ' material="c34minv"', ' material="c34mvis" rgba="0.3 0.3 0.3 0"', ' material="c34mvis"'][(cnt[0] // 4) % 4]
+    return s
+  xml = re.sub(r'<geom name="[^"]+"', deco, xml)
+  return xml
+
+
+def _ref(mujoco, mjm, mjd, pnt, vec, gg, flg_static, bodyexclude):
+  gid = np.full(1, -1, dtype=np.int32)
+  nrm = np.zeros(3)
+  dist = mujoco.mj_ray(mjm, mjd, pnt, vec, None if gg is None else gg.astype(np.uint8), 1 if flg_static else 0, int(bodyexclude), gid, nrm)
+  return float(dist), int(gid[0]), nrm
+
+
+def _geom_dist(mujoco, mjm, mjd, g, pnt, vec):
+  """distance along the ray to geom g alone (MuJoCo's primitive routine)"""
+  return float(mujoco.mju_rayGeom(mjd.geom_xpos[g], mjd.geom_xmat[g], mjm.geom_size[g], pnt, vec, int(mjm.geom_type[g])))
+
+
+def _ill_conditioned(mujoco, mjm, mjd, pnt, vec, gg, flg_static, bodyexclude, dist, gid, nn, tol):
+  """True if MuJoCo itself returns the observed answer for a ray perturbed by ~1e-5 (grazing rays, rays through an edge where
+  the nearest geom / the face normal switches): such an input does not decide anything in float32."""
+  h = 2e-5
+  for k in range(12):
+    e = np.zeros(3)
+    e[k % 3] = h if (k // 3) % 2 == 0 else -h
+    p2, v2 = (pnt + e, vec) if k < 6 else (pnt, (vec + e) / np.linalg.norm(vec + e))
+    d2, g2, n2 = _ref(mujoco, mjm, mjd, p2, v2, gg, flg_static, bodyexclude)
+    if (d2 >= 0) != (dist >= 0):
+      continue
+    if d2 < 0:
+      return True
+    if abs(d2 - dist) <= tol and (g2 == gid) and float(np.linalg.norm(n2 - nn)) <= 5e-3:
+      return True
+  return False
 
 
 def _run(ctx, ncases, nrays):
   import mujoco
   import warp as wp
   import mujoco_warp as mjw
+  from mujoco_warp._src import types as _t
   from harness.gen import models
   rng = np.random.default_rng(ctx.seed * 1000 + 34)
   acc = Acc()
   for c in range(ncases):
-    wb, sp = models.random_tree(rng, nbody=int(rng.integers(1, 5)), joint_types=("free", "hinge"), geom_types=["sphere", "capsule", "box", "ellipsoid", "cylinder"], spread=0.5,
-                                static_geoms=int(rng.integers(0, 3)), sites=False)
-    xml = models.wrap(wb, floor=rng.random() < 0.7)
-    xml = xml.replace("<worldbody>", '<worldbody><camera name="c34cam" pos="0 -3 1" xyaxes="1 0 0 0 0 1"/>', 1)
-    # random groups
-    xml = xml.replace('type="sphere"', f'type="sphere" group="{int(rng.integers(0, 6))}"')
+    xml = _scene(rng, c)
     mjm = mujoco.MjModel.from_xml_string(xml)
     mjd = mujoco.MjData(mjm)
     models.random_state(rng, mjm, mjd, qpos_scale=0.3, unnormalized=False)
+    if mjm.nmocap:
+      mjd.mocap_pos[:] += rng.normal(size=mjd.mocap_pos.shape) * 0.2
+      q = rng.normal(size=mjd.mocap_quat.shape)
+      mjd.mocap_quat[:] = q / np.linalg.norm(q, axis=1, keepdims=True)
     mujoco.mj_forward(mjm, mjd)
     m = mjw.put_model(mjm)
     d = mjw.put_data(mjm, mjd, nworld=1)
     mjw.kinematics(m, d)
+    gbody = mjm.geom_bodyid
+    weld0 = [g for g in range(mjm.ngeom) if mjm.body_weldid[gbody[g]] == 0]
+    weld0_nw = [g for g in weld0 if gbody[g] != 0]
+    weld0_bodies = sorted({int(gbody[g]) for g in weld0_nw})
+    matid = mjm.geom_matid
+    invisible = [g for g in range(mjm.ngeom) if (matid[g] < 0 and mjm.geom_rgba[g][3] == 0) or (matid[g] >= 0 and mjm.mat_rgba[matid[g]][3] == 0)]
     # the BVH-accelerated path of ray() (render context): same answer as the brute-force path
     rc = None
     try:
-      rc = mjw.create_render_context(mjm, nworld=1, cam_res=(4, 4), render_rgb=False, render_depth=True, render_seg=True, enabled_geom_groups=[0, 1, 2, 3, 4, 5])
+      groups = sorted(set(range(6)) | {int(x) for x in mjm.geom_group})
+      rc = mjw.create_render_context(mjm, nworld=1, cam_res=(4, 4), render_rgb=False, render_depth=True, render_seg=True, enabled_geom_groups=groups)
       mjw.refit_bvh(m, d, rc)
       # the leaf box of every convex geom must contain the geom: exact extents along the world axes from support functions
       from harness.props.c04 import _support
@@ -58,84 +148,193 @@ def _run(ctx, ncases, nrays):
     except Exception as e:
       acc.hit("bvh-context-unavailable:" + type(e).__name__)
       rc = None
-    flg_static = bool(rng.random() < 0.7)
-    bodyexclude = int(rng.integers(-1, mjm.nbody))
-    gg = None
-    if rng.random() < 0.5:
-      gg = rng.integers(0, 2, size=6).astype(np.int32)
+    done = []    # (pnt, vec, flg_static, gg, bodyexclude, brute (dist, geom), bvh (dist, geom) or None)
     for r in range(nrays):
-      mode = int(rng.integers(0, 4))
-      if mode == 3:   # toward an extremity of an elongated geom (away from its centre: where wrong bounds / axes show)
+      # ---- ray: every 3rd one is aimed from close by at a geom of a body welded to the world (the static rule decides the answer)
+      mode = 4 if (r % 3 == 0 and weld0) else int(rng.integers(0, 4))
+      if mode == 4:
+        tg = int(rng.choice(weld0_nw)) if weld0_nw and rng.random() < 0.75 else int(rng.choice(weld0))
+        tgt = mjd.geom_xpos[tg] + rng.normal(size=3) * 0.03
+        if mjm.geom_type[tg] == 0:
+          tgt = tgt + mjd.geom_xmat[tg].reshape(3, 3)[:, :2] @ rng.uniform(-1, 1, size=2)
+        off = rng.normal(size=3)
+        pnt = tgt + off / np.linalg.norm(off) * rng.uniform(0.35, 0.9)
+        vec = tgt - pnt
+      elif mode == 3:   # toward an extremity of an elongated geom (away from its centre: where wrong bounds / axes show)
         elong = [k for k in range(mjm.ngeom) if mjm.geom_type[k] in (3, 5)]    # capsules and cylinders first
-        g = int(rng.choice(elong)) if elong and rng.random() < 0.8 else int(rng.integers(mjm.ngeom))
-        R = mjd.geom_xmat[g].reshape(3, 3)
-        ext = float(mjm.geom_size[g][1] if mjm.geom_type[g] in (3, 5) else mjm.geom_size[g][2])   # capsule/cylinder half length, else z half size
-        tgt = mjd.geom_xpos[g] + R[:, 2] * ext * float(rng.choice([-0.9, 0.9]))
+        tg = int(rng.choice(elong)) if elong and rng.random() < 0.8 else int(rng.integers(mjm.ngeom))
+        R = mjd.geom_xmat[tg].reshape(3, 3)
+        ext = float(mjm.geom_size[tg][1] if mjm.geom_type[tg] in (3, 5) else mjm.geom_size[tg][2])   # capsule/cylinder half length, else z half size
+        tgt = mjd.geom_xpos[tg] + R[:, 2] * ext * float(rng.choice([-0.9, 0.9]))
         pnt = tgt + rng.normal(size=3) * 1.5
         vec = tgt - pnt
       elif mode == 0:   # from outside toward a geom
-        tgt = mjd.geom_xpos[int(rng.integers(mjm.ngeom))] + rng.normal(size=3) * 0.05
+        tg = int(rng.integers(mjm.ngeom))
+        tgt = mjd.geom_xpos[tg] + rng.normal(size=3) * 0.05
         pnt = tgt + rng.normal(size=3) * 1.5
         vec = tgt - pnt
       elif mode == 1:  # from inside a geom
-        pnt = mjd.geom_xpos[int(rng.integers(mjm.ngeom))] + rng.normal(size=3) * 0.01
+        tg = int(rng.integers(mjm.ngeom))
+        pnt = mjd.geom_xpos[tg] + rng.normal(size=3) * 0.01
         vec = rng.normal(size=3)
       else:
+        tg = int(rng.integers(mjm.ngeom))
         pnt = rng.normal(size=3) * 1.0 + np.array([0, 0, 1.0])
         vec = rng.normal(size=3)
       vec = vec / np.linalg.norm(vec)
-      geomid_ref = np.zeros(1, dtype=np.int32)
-      dist_ref = mujoco.mj_ray(mjm, mjd, pnt, vec, None if gg is None else gg.astype(np.uint8), 1 if flg_static else 0, bodyexclude, geomid_ref)
+      # ---- filters, in rotation (2 x 4 x 5 combinations; the body rotation is shifted per case)
+      flg_static = bool((r + c) % 2)
+      gk = (r // 2) % 4
+      tgrp = min(5, max(0, int(mjm.geom_group[tg])))
+      if gk == 0:
+        gg = None
+      elif gk == 1:
+        gg = rng.integers(0, 2, size=6).astype(np.int32)
+      elif gk == 2:    # the aimed-at geom's group is switched off
+        gg = rng.integers(0, 2, size=6).astype(np.int32); gg[tgrp] = 0
+      else:            # only the aimed-at geom's group is on
+        gg = np.zeros(6, dtype=np.int32); gg[tgrp] = 1
+      bk = (r // 8 + c) % 5
+      if bk == 0:
+        bodyexclude = -1
+      elif bk == 1:
+        bodyexclude = int(gbody[tg])
+      elif bk == 2:
+        bodyexclude = int(rng.choice(weld0_bodies)) if weld0_bodies else 0
+      elif bk == 3:
+        bodyexclude = 0
+      else:
+        bodyexclude = int(rng.integers(0, mjm.nbody))
+      dist_ref, geomid_ref, nrm_ref = _ref(mujoco, mjm, mjd, pnt, vec, gg, flg_static, bodyexclude)
+      # which rules decided this answer (vacuity statistics only)
+      d0, g0, _ = _ref(mujoco, mjm, mjd, pnt, vec, None, True, -1)
+      if g0 >= 0:
+        if _ref(mujoco, mjm, mjd, pnt, vec, None, flg_static, -1)[1] != g0:
+          acc.hit("static-rule-decides")
+          if gbody[g0] != 0:
+            acc.hit("static-rule-decides:jointless-body-off-world")
+        elif not flg_static and mjm.body_jntnum[gbody[g0]] == 0 and geomid_ref == g0:
+          # jointless but not welded to the world for MuJoCo (its weld id is not 0): nearest hit although flg_static is off
+          acc.hit("static-off:mocap-body-kept" if mjm.body_mocapid[gbody[g0]] >= 0 else "static-off:jointless-child-of-moving-body-kept")
+        if gg is not None and _ref(mujoco, mjm, mjd, pnt, vec, gg, True, -1)[1] != g0:
+          acc.hit("group-rule-decides" + (":out-of-range-group" if not 0 <= mjm.geom_group[g0] <= 5 else ""))
+        if bodyexclude >= 0 and _ref(mujoco, mjm, mjd, pnt, vec, None, True, bodyexclude)[1] != g0:
+          acc.hit("bodyexclude-decides")
+      for g in invisible:
+        dinv = _geom_dist(mujoco, mjm, mjd, g, pnt, vec)
+        if dinv >= 0 and (d0 < 0 or dinv < d0):
+          acc.hit("invisible-geom-in-front")
+          break
       p = wp.array(np.array([[pnt]], dtype=np.float32), dtype=wp.vec3)
       v = wp.array(np.array([[vec]], dtype=np.float32), dtype=wp.vec3)
-      ggv = None
-      if gg is not None:
-        ggv = mjw.vec6(*[int(x) for x in gg]) if hasattr(mjw, "vec6") else None
+      ggv = None if gg is None else _t.vec6(*[float(x) for x in gg])
+      replay = dict(xml=xml, pnt=pnt.tolist(), vec=vec.tolist(), flg_static=flg_static, bodyexclude=bodyexclude, geomgroup=None if gg is None else gg.tolist(), qpos=mjd.qpos.tolist(),
+                    mocap_pos=mjd.mocap_pos.tolist(), mocap_quat=mjd.mocap_quat.tolist())
       try:
-        if ggv is None and gg is not None:
-          from mujoco_warp._src import types as _t
-          ggv = _t.vec6(*[float(x) for x in gg])
         dist, gid, nrm = mjw.ray(m, d, p, v, ggv, flg_static, bodyexclude)
       except Exception as e:
         acc.find(f"ray raised {type(e).__name__}: {e}", "ray.ray", "crash", xml=xml)
         break
       acc.evals += 1
-      dg, gg_id, nn = float(dist.numpy()[0, 0]), int(gid.numpy()[0, 0]), nrm.numpy()[0, 0]
+      dg, gg_id, nn = float(dist.numpy()[0, 0]), int(gid.numpy()[0, 0]), nrm.numpy()[0, 0].astype(np.float64)
+      bv = None
       if rc is not None:
         try:
           db, gb, nb = mjw.ray(m, d, p, v, ggv, flg_static, bodyexclude, rc=rc)
           dbv, gbv = float(db.numpy()[0, 0]), int(gb.numpy()[0, 0])
+          bv = (dbv, gbv)
           acc.evals += 1
           if (dbv >= 0) != (dg >= 0) or (dg >= 0 and abs(dbv - dg) > 1e-4 * (1 + abs(dg))):
-            acc.find(f"BVH ray path gives distance {dbv:.6g} (geom {gbv}), brute force {dg:.6g} (geom {gg_id})", "ray.ray (BVH) / bvh bounds", "bvh-vs-bruteforce", xml=xml, pnt=pnt.tolist(),
-                     vec=vec.tolist(), flg_static=flg_static, bodyexclude=bodyexclude, geomgroup=None if gg is None else gg.tolist(), qpos=mjd.qpos.tolist())
+            acc.find(f"BVH ray path gives distance {dbv:.6g} (geom {gbv}), brute force {dg:.6g} (geom {gg_id})", "ray.ray (BVH) / bvh bounds", "bvh-vs-bruteforce", **replay)
           acc.hit("bvh-path")
         except TypeError:
           rc = None
+      done.append((pnt, vec, flg_static, gg, bodyexclude, (dg, gg_id), bv))
       hit_ref = dist_ref >= 0
       if hit_ref:
         acc.distinct.add((c, r))
       tol = 2e-4 * (1 + abs(dist_ref))
+      filt = f"flg_static={flg_static}, bodyexclude={bodyexclude}, geomgroup={None if gg is None else gg.tolist()}"
       if (dg >= 0) != hit_ref or (hit_ref and abs(dg - dist_ref) > tol):
-        acc.find(f"ray distance {dg:.6g} (geom {gg_id}) vs mj_ray {dist_ref:.6g} (geom {int(geomid_ref[0])})", "ray.ray", "vs-mujoco", xml=xml, pnt=pnt.tolist(), vec=vec.tolist(),
-                 flg_static=flg_static, bodyexclude=bodyexclude, geomgroup=None if gg is None else gg.tolist(), qpos=mjd.qpos.tolist())
-      elif hit_ref:
-        if abs(np.linalg.norm(nn) - 1) > 1e-3:
-          acc.find(f"hit normal is not unit ({nn.tolist()})", "ray.ray", "normal", xml=xml, pnt=pnt.tolist(), vec=vec.tolist())
-        acc.hit(["outside", "inside", "random", "extremity"][mode])
-    acc.sample({"ngeom": int(mjm.ngeom), "flg_static": flg_static, "bodyexclude": bodyexclude, "geomgroup": None if gg is None else gg.tolist()})
+        if _ill_conditioned(mujoco, mjm, mjd, pnt, vec, gg, flg_static, bodyexclude, dg, gg_id, nn, tol):
+          acc.hit("ill-conditioned-ray-skipped")
+          continue
+        where = ""
+        if gg_id >= 0:
+          b = int(gbody[gg_id])
+          where = f"; reported geom is on body {b} (weld id {int(mjm.body_weldid[b])}, group {int(mjm.geom_group[gg_id])})"
+        acc.find(f"ray distance {dg:.6g} (geom {gg_id}) vs mj_ray {dist_ref:.6g} (geom {geomid_ref}) with {filt}{where}", "ray.ray", "vs-mujoco", **replay)
+        continue
+      if not hit_ref:
+        acc.hit("miss")
+        if dg != -1.0 or gg_id != -1:
+          acc.find(f"no hit, but outputs are distance {dg!r}, geom {gg_id} (expected -1, -1)", "ray.ray", "miss-outputs", **replay)
+        continue
+      acc.hit(["outside", "inside", "random", "extremity", "at-static-geom"][mode])
+      if gg_id != geomid_ref:
+        # same distance, different geom: a defect unless the two surfaces really coincide along the ray
+        dgeo = _geom_dist(mujoco, mjm, mjd, gg_id, pnt, vec) if 0 <= gg_id < mjm.ngeom else -1.0
+        if not (dgeo >= 0 and abs(dgeo - dist_ref) <= tol):
+          acc.find(f"geom id {gg_id} vs mj_ray {geomid_ref} at distance {dist_ref:.6g} with {filt}", "ray.ray", "vs-mujoco-geomid", **replay)
+        else:
+          acc.hit("coincident-surfaces")
+        continue
+      if abs(np.linalg.norm(nn) - 1) > 1e-3:
+        acc.find(f"hit normal is not unit ({nn.tolist()})", "ray.ray", "normal", xml=xml, pnt=pnt.tolist(), vec=vec.tolist())
+      elif float(np.linalg.norm(nn - nrm_ref)) > 5e-3:
+        if _ill_conditioned(mujoco, mjm, mjd, pnt, vec, gg, flg_static, bodyexclude, dg, gg_id, nn, tol):
+          acc.hit("ill-conditioned-ray-skipped")
+        else:
+          acc.find(f"hit normal {nn.tolist()} vs mj_ray {nrm_ref.tolist()} (geom {gg_id}, type {int(mjm.geom_type[gg_id])}, distance {dg:.6g})", "ray.ray", "vs-mujoco-normal", **replay)
+      else:
+        acc.hit("normal-compared")
+    # ---- rays(): many rays at once with a per-ray excluded body must give what ray() gave for each of them
+    batches = {}
+    for i, t in enumerate(done):
+      batches.setdefault((t[2], None if t[3] is None else tuple(t[3].tolist())), []).append(i)
+    for (fs, ggk), idx in batches.items():
+      n = len(idx)
+      p = wp.array(np.array([[done[i][0] for i in idx]], dtype=np.float32), dtype=wp.vec3)
+      v = wp.array(np.array([[done[i][1] for i in idx]], dtype=np.float32), dtype=wp.vec3)
+      be = wp.array(np.array([done[i][4] for i in idx], dtype=np.int32), dtype=int)
+      ggv = _t.vec6(*([-1.0] * 6)) if ggk is None else _t.vec6(*[float(x) for x in ggk])
+      for path, ctx_rc in (("brute", None), ("bvh", rc)):
+        if path == "bvh" and (rc is None or any(done[i][6] is None for i in idx)):
+          continue
+        od, og, on = wp.zeros((1, n), dtype=float), wp.zeros((1, n), dtype=int), wp.zeros((1, n), dtype=wp.vec3)
+        try:
+          mjw.rays(m, d, p, v, ggv, fs, be, od, og, on, ctx_rc)
+        except Exception as e:
+          acc.find(f"rays raised {type(e).__name__}: {e}", "ray.rays", "crash", xml=xml)
+          break
+        odn, ogn = od.numpy()[0], og.numpy()[0]
+        for j, i in enumerate(idx):
+          one = done[i][5] if path == "brute" else done[i][6]
+          acc.evals += 1
+          if float(odn[j]) != one[0] or int(ogn[j]) != one[1]:
+            acc.find(f"rays() ({path}) gives ({float(odn[j]):.6g}, geom {int(ogn[j])}) for ray {j} of {n}, ray() gave ({one[0]:.6g}, geom {one[1]}) for the same ray and filters", "ray.rays",
+                     "rays-vs-ray", xml=xml, pnts=[done[k][0].tolist() for k in idx], vecs=[done[k][1].tolist() for k in idx], flg_static=fs, geomgroup=ggk, bodyexclude=[done[k][4] for k in idx],
+                     qpos=mjd.qpos.tolist())
+            break
+        acc.hit("rays-batch:" + path)
+    acc.sample({"ngeom": int(mjm.ngeom), "nbody": int(mjm.nbody), "bodies_welded_to_world": weld0_bodies, "invisible_geoms": invisible})
   return acc
 
 
-RULE = ("random scenes of free/hinged bodies + static geoms + optional floor with sphere/capsule/box/ellipsoid/cylinder geoms and random groups; rays aimed at geoms from outside, started inside "
-        "geoms, and random; random geomgroup / flg_static / bodyexclude; distance and hit/miss vs mujoco.mj_ray, unit normal, and the BVH-accelerated path (render context) vs the brute-force path; distinct = rays that hit")
+RULE = ("random scenes of free/hinged bodies + static geoms + optional floor with sphere/capsule/box/ellipsoid/cylinder geoms; every scene also has (rotating) a jointless body or chain of jointless bodies "
+        "attached to the world, a mocap body, a jointless child of a moving body; every geom gets a random group (15%: out of range 7 / -2), every 4th geom is alpha-0 / has an alpha-0 material / has a "
+        "visible material over an alpha-0 colour / a visible material. Rays: aimed at geoms from outside, started inside geoms, toward extremities, random, and every 3rd ray from close by at a geom of a "
+        "body welded to the world. Per ray a deterministic rotation of flg_static (2) x geomgroup (none, random, target's group off, only target's group) x bodyexclude (none, target's body, a welded "
+        "body, world, random). Compared with mujoco.mj_ray: hit/miss and distance, (-1,-1) on a miss, geom id (mju_rayGeom decides coincident surfaces), normal (unit; equal to mj_ray's within 5e-3); "
+        "mismatches that MuJoCo itself reproduces for a 2e-5 perturbed ray are skipped and counted. BVH path (render context with all groups enabled) vs brute force per ray; rays() batches with "
+        "per-ray bodyexclude vs the single-ray results, both paths, exact. hits: which rule decided the reference answer (static / group / bodyexclude / invisible geom in front). distinct = rays that hit")
 
 
 def correspondence(ctx):
   from harness.corr import func_corr
   fc = func_corr.run(["ray._ray_quad", "ray.ray_sphere", "ray.ray_plane", "ray.ray_ellipsoid", "ray.ray_box", "ray.ray_capsule", "ray.ray_cylinder", "ray._ray_map", "ray._ray_triangle"],
                      ncases=192 if ctx.thorough else 48, seed=ctx.seed)
-  acc = _run(ctx, 24 if ctx.thorough else 6, 40 if ctx.thorough else 24)
+  acc = _run(ctx, 24 if ctx.thorough else 6, 40)
   return result(acc, RULE, fc=fc)
 
 
